@@ -94,8 +94,8 @@ Definition all_equal (l : list obs) : bool :=
   end.
 
 (* ---------- the model's answer in the observation format ---------- *)
-Definition model_obs (bo : byte_order) (cpu : endian) (m : N) (canon names : list bytes) : obs :=
-  let sorted := sort_bks (add_all bo cpu fnv32 fnv32 m names) in
+Definition model_obs_h (h1 h2 : hash_fn) (bo : byte_order) (cpu : endian) (m : N) (canon names : list bytes) : obs :=
+  let sorted := sort_bks (add_all bo cpu h1 h2 m names) in
   match generate_sorted m sorted with
   | GNil => ONil
   | GPanic => OPanic
@@ -106,6 +106,9 @@ Definition model_obs (bo : byte_order) (cpu : endian) (m : N) (canon names : lis
                           | Some i => nth (N.to_nat i) im (N.succ (len canon))
                           end) l)
   end.
+
+(* with the hash functions Felix configures (felix/bpf/proxy/syncer.go newConsistentHash) *)
+Definition model_obs := model_obs_h fnv32 fnv32.
 
 Definition other (e : endian) : endian := match e with LE => BE | BE => LE end.
 
